@@ -191,6 +191,7 @@ func (env *verifEnv) c04Consumers() []*c04Consumer {
 		}
 		return out
 	}
+	storageCol := time.Now().Unix() + 100000
 	var cs []*c04Consumer
 	sessionDirect := func(name string, required int) *c04Consumer {
 		return &c04Consumer{name: name, kind: "session", run: func(raw string) (c04Obs, string) {
@@ -263,7 +264,7 @@ func (env *verifEnv) c04Consumers() []*c04Consumer {
 	}})
 	cs = append(cs, &c04Consumer{name: "storage", kind: "storage", run: func(raw string) (c04Obs, string) {
 		now := time.Now().Unix()
-		col := now + 4000
+		col := storageCol
 		if _, err := st.db.Exec("insert or replace into expiring_signed_user_data(username, type, jws_data, expiration_epoch, update_epoch) values(?,?,?,?,?)",
 			"alice", c04DataType, raw, col, now); err != nil {
 			panic(err)
@@ -657,13 +658,13 @@ func TestVerif_C04(t *testing.T) {
 	}
 
 	// ---- 5. byte corruption of genuine artefacts
-	type corruptCase struct {
+	type corruptBatch struct {
 		base     int
-		tampered bool
 		consumer string
-		obs      c04Obs
+		t0, t1   int64
+		v        []byte
 	}
-	var corrupt []corruptCase
+	var corrupt []corruptBatch
 	perConsumer := 40
 	if verifThorough() {
 		perConsumer = 6500
@@ -671,11 +672,15 @@ func TestVerif_C04(t *testing.T) {
 	alphabet := "ABCDEFGHIJKLMNOPQRSTUVWXYZabcdefghijklmnopqrstuvwxyz0123456789-_.=+/ %\x00\"\\"
 	for _, c := range consumers {
 		b := base[c.kind]
-		bi := intern(b)
+		batch := corruptBatch{base: intern(b), t0: time.Now().UnixNano()}
+		dots := []int{strings.Index(b.raw, "."), strings.LastIndex(b.raw, ".")}
 		for i := 0; i < perConsumer; i++ {
 			pos := rng.Intn(len(b.raw))
-			if i%5 == 0 {
+			switch i % 6 {
+			case 0:
 				pos = len(b.raw) - 1 - rng.Intn(3) // the tail of the signature (unused base64 bits live here)
+			case 1:
+				pos = dots[rng.Intn(2)] - 1 - rng.Intn(2) // the tail of the header / payload segment
 			}
 			nb := alphabet[rng.Intn(len(alphabet))]
 			if i%2 == 0 {
@@ -689,8 +694,16 @@ func TestVerif_C04(t *testing.T) {
 				continue
 			}
 			o, term := c.run(v.raw)
+			batch.consumer = term
 			oracle(v, c, o, "corruption")
-			corrupt = append(corrupt, corruptCase{base: bi, tampered: v.tampered, consumer: term, obs: o})
+			code := byte(0)
+			if v.tampered {
+				code |= 1
+			}
+			if o.ok {
+				code |= 2
+			}
+			batch.v = append(batch.v, code)
 			outcome := "refused"
 			if o.ok {
 				outcome = "accepted"
@@ -700,6 +713,10 @@ func TestVerif_C04(t *testing.T) {
 			if !v.tampered {
 				res.bump("corruption-same-decoded-bytes")
 			}
+		}
+		batch.t1 = time.Now().UnixNano()
+		if len(batch.v) > 0 {
+			corrupt = append(corrupt, batch)
 		}
 	}
 
@@ -740,18 +757,19 @@ func TestVerif_C04(t *testing.T) {
 	}
 	sb.WriteString("].\nDefinition c04_mismatches := Eval vm_compute in mismatches (case_bad c04_idp toks) cases.\nPrint c04_mismatches.\n")
 	sb.WriteString("Definition c04_ncases := Eval vm_compute in length cases.\nPrint c04_ncases.\n")
-	// corruption: the base token with the tampered flag the harness computed
-	sb.WriteString("Definition corrupt_cases : list (nat * bool * consumer * Z * Z * bool) := [\n")
+	// corruption: one batch per consumer (base token, consumer, clock window, one byte per token)
+	sb.WriteString("Definition corrupt_batches : list (nat * consumer * Z * Z * bs) := [\n")
+	ncorrupt := 0
 	for i, c := range corrupt {
 		sep := ";"
 		if i == len(corrupt)-1 {
 			sep = ""
 		}
-		sb.WriteString(fmt.Sprintf(" (%d%%nat, %s, %s, (%d)%%Z, (%d)%%Z, %s)%s\n", c.base, coqBool(c.tampered), c.consumer, c.obs.t0, c.obs.t1, coqBool(c.obs.ok), sep))
+		ncorrupt += len(c.v)
+		sb.WriteString(fmt.Sprintf(" (%d%%nat, %s, (%d)%%Z, (%d)%%Z, %s)%s\n", c.base, c.consumer, c.t0, c.t1, coqPacked(c.v), sep))
 	}
-	sb.WriteString("].\nDefinition corrupt_bad (k : nat * bool * consumer * Z * Z * bool) : bool :=\n  let '(ti, tam, c, t0, t1, ok) := k in\n  match nth_opt toks ti with None => true | Some t =>\n    let t' := {| t_signer := t_signer t; t_alg := t_alg t; t_tampered := tam; t_claims := t_claims t |} in\n    negb (Bool.eqb (accepts c04_idp t0 c t') ok || Bool.eqb (accepts c04_idp t1 c t') ok) end.\n")
-	sb.WriteString("Definition c04_corrupt_mismatches := Eval vm_compute in mismatches corrupt_bad corrupt_cases.\nPrint c04_corrupt_mismatches.\n")
-	sb.WriteString("Definition c04_ncorrupt := Eval vm_compute in length corrupt_cases.\nPrint c04_ncorrupt.\n")
+	sb.WriteString("].\nDefinition c04_corrupt_mismatches := Eval vm_compute in flat_map (batch_mismatches c04_idp toks) corrupt_batches.\nPrint c04_corrupt_mismatches.\n")
+	sb.WriteString(fmt.Sprintf("Definition c04_ncorrupt := %d%%nat.\nPrint c04_ncorrupt.\n", ncorrupt))
 	if err := ioutil.WriteFile(filepath.Join(verifOut(), "CasesC04.v"), []byte(sb.String()), 0644); err != nil {
 		t.Fatal(err)
 	}
